@@ -150,7 +150,8 @@ def reparent (par : Par) (altLen : Nat) : Location → R Location
     match par with
     | .whole => if b.2 > altLen then throw .InvalidPosition else pure (.single b st)
     | .chunk cs =>
-      if overlapKernel b (cs, cs + altLen) then
+      if altLen = 0 then throw .NullSequence      -- `if not chunk_parent.sequence` (an empty Sequence is falsy)
+      else if overlapKernel b (cs, cs + altLen) then
         pure (.single (max b.1 cs - cs, min b.2 (cs + altLen) - cs) st)
       else pure .empty
   | .compound l =>
@@ -158,7 +159,8 @@ def reparent (par : Par) (altLen : Nat) : Location → R Location
     | .whole => if l.blocks.any (fun b => decide (b.2 > altLen)) then throw .InvalidPosition else pure (.compound l)
     | .chunk cs =>
       let kept := l.blocks.filter (fun b => overlapKernel b (cs, cs + altLen))
-      if kept.isEmpty then pure .empty
+      if altLen = 0 then throw .NullSequence
+      else if kept.isEmpty then pure .empty
       else do
         let l' ← mkCompoundLoc (kept.map fun b => (max b.1 cs - cs, min b.2 (cs + altLen) - cs)) l.strand
         pure (.compound l')
